@@ -278,8 +278,11 @@ answered): a hit lies in `[0, max]`; `PenetratingOrWithinTargetDist` only at sta
 `toi > 0`; with relative motion, `None` needs a reason (no GJK hit, a GJK time above `max`, or a start-up contact that is
 discarded: no contact at all, or `!stop_at_penetration` and not approaching); a start-up hit with `!stop_at_penetration`
 is approaching; a hit beyond start-up reports the GJK time; without relative motion: a hit iff `stop_at_penetration` and
-the shapes are within the target (a contact exists), at time 0. -/
-def smsmOracle (velNormZero : Bool) (o : Opts Float) (dd : Option Rat) (cT cM : Bool) (nvel : Option Rat) (out : List String) : String :=
+the shapes are within the target (a contact exists), at time 0.  The sign of the normal velocity `n1·vel` is judged with the
+tolerance `nvTol` (1e-12 relative): at an exact tangential start-up contact the code's rounded dot product may fall on either
+side of 0, and both answers are accepted. -/
+def smsmOracle (velNormZero : Bool) (o : Opts Float) (dd : Option Rat) (cT cM : Bool) (nvel : Option Rat) (out : List String)
+    (nvTol : Rat := 0) : String :=
   if !(FloatIO.isFinite o.maxToi && FloatIO.isFinite o.target) then "skip options-outside-domain" else
   let mx := q o.maxToi
   let startup (t : Rat) : Bool := (o.cig || !o.stop) && decide (t < 1 / 100000)
@@ -295,7 +298,7 @@ def smsmOracle (velNormZero : Bool) (o : Opts Float) (dd : Option Rat) (cT cM : 
        if startup t then
          (if !cM then "pass" else
           match nvel with
-          | some nv => if !o.stop ∧ nv ≥ 0 then "pass" else "fail none-but-start-up-contact-is-due"
+          | some nv => if !o.stop ∧ nv ≥ -nvTol then "pass" else "fail none-but-start-up-contact-is-due"
           | none => "pass")
        else "fail none-but-gjk-time-within-max")
   | "some" :: t :: rest =>
@@ -316,7 +319,7 @@ def smsmOracle (velNormZero : Bool) (o : Opts Float) (dd : Option Rat) (cT cM : 
          if startup t then
            (if st ≠ "3" then "fail start-up-status" else
             match nvel with
-            | some nv => if !o.stop ∧ nv ≥ 0 then "fail separating-start-up-contact-reported" else "pass"
+            | some nv => if !o.stop ∧ nv > nvTol then "fail separating-start-up-contact-reported" else "pass"
             | none => "fail start-up-hit-without-contact")
          else if T = 0 then (if st = "3" then "pass" else "fail status-at-time-zero")
          else (if st = "1" then "pass" else "fail status-converged-expected"))
@@ -334,6 +337,7 @@ def handlerW (fn : String) : Option Handler :=
           let dd := (if 0 < o.target then t.ddRound else t.ddPlain).map fun x => q x.1
           let nvel := t.cMax.map fun c => (q3 c.n1).dot (q3 v)
           smsmOracle (relEqZero t.velNorm) o dd t.cTarget.isSome t.cMax.isSome nvel out
+            ((rabs (q v.x) + rabs (q v.y) + rabs (q v.z)) / 1000000000000)
         | none => "skip bad-args" }
   | "smsm2" => some {
       model := fun a => run (do
@@ -344,6 +348,7 @@ def handlerW (fn : String) : Option Handler :=
           let dd := (if 0 < o.target then t.ddRound else t.ddPlain).map fun x => q x.1
           let nvel := t.cMax.map fun c => (q2 c.n1).dot (q2 v)
           smsmOracle (relEqZero t.velNorm) o dd t.cTarget.isSome t.cMax.isSome nvel out
+            ((rabs (q v.x) + rabs (q v.y)) / 1000000000000)
         | none => "skip bad-args" }
   | "hfwalk3" => some {
       model := fun a => (run pwargs a).map walkModel
